@@ -1,0 +1,113 @@
+/**
+ * @file verif_hooks.cpp
+ * Observation hooks for external verification tooling.
+ * Everything in here is compiled only with -DUNCRUSTIFY_VERIF and does
+ * nothing unless the corresponding environment variable names a file.
+ *
+ * @license GPL v2+
+ */
+#ifdef UNCRUSTIFY_VERIF
+
+#include "verif_hooks.h"
+
+#include "token_enum.h"
+#include "uncrustify.h"
+
+#include <cstdio>
+#include <cstdlib>
+#include <cstring>
+
+
+static const char *verif_last_rule          = "";
+bool              verif_space_in_space_text = false;
+
+
+static void verif_put_hex(FILE *pf, const char *text)
+{
+   if (*text == 0)
+   {
+      fputc('-', pf);
+      return;
+   }
+
+   for ( ; *text != 0; text++)
+   {
+      fprintf(pf, "%02x", (unsigned char)*text);
+   }
+}
+
+
+void verif_dump_chunks(const char *envvar, const char *stage)
+{
+   const char *path = getenv(envvar);
+
+   if (  path == nullptr
+      || *path == 0)
+   {
+      return;
+   }
+   FILE *pf = fopen(path, "a");
+
+   if (pf == nullptr)
+   {
+      return;
+   }
+   fprintf(pf, "=== %s\n", stage);
+
+   for (Chunk *pc = Chunk::GetHead(); pc->IsNotNullChunk(); pc = pc->GetNext())
+   {
+      fprintf(pf, "%s\t%s\t%zu\t%zu\t%zu\t%zu\t%zu\t%zu\t%zu\t%zu\t%llx\t",
+              get_token_name(pc->GetType()), get_token_name(pc->GetParentType()),
+              pc->GetOrigLine(), pc->GetOrigCol(), pc->GetOrigColEnd(), pc->GetColumn(),
+              pc->GetLevel(), pc->GetBraceLevel(), pc->GetPpLevel(), pc->GetNlCount(),
+              (unsigned long long)(PcfFlags::int_t)pc->GetFlags());
+      verif_put_hex(pf, pc->Text());
+      fputc('\n', pf);
+   }
+
+   fclose(pf);
+}
+
+
+void verif_note_rule(const char *rule)
+{
+   verif_last_rule = rule;
+}
+
+
+void verif_note_space(Chunk *first, Chunk *second, int av_raw, int av, int min_sp)
+{
+   static FILE *pf     = nullptr;
+   static bool checked = false;
+
+   if (!checked)
+   {
+      checked = true;
+      const char *path = getenv("UNC_VERIF_SPACE");
+
+      if (  path != nullptr
+         && *path != 0)
+      {
+         pf = fopen(path, "a");
+      }
+   }
+
+   if (pf != nullptr)
+   {
+      fprintf(pf, "%c\t%zu\t%zu\t%zu\t%zu\t%s\t%d\t%d\t%d\t%d\t%s\t%s\t",
+              verif_space_in_space_text ? 'S' : 'A',
+              first->GetOrigLine(), first->GetOrigCol(),
+              second->GetOrigLine(), second->GetOrigCol(),
+              verif_last_rule, av_raw, av, min_sp,
+              first->TestFlags(PCF_FORCE_SPACE) ? 1 : 0,
+              get_token_name(first->GetType()), get_token_name(second->GetType()));
+      verif_put_hex(pf, first->Text());
+      fputc('\t', pf);
+      verif_put_hex(pf, second->Text());
+      fputc('\n', pf);
+      fflush(pf);
+   }
+   verif_last_rule = "";
+}
+
+#endif /* UNCRUSTIFY_VERIF */
